@@ -157,9 +157,24 @@ fn one_case(ctx: &Ctx, case: u64, l: &mut Local) {
         if n >= 2 && n <= 400 {
             let salts: Vec<String> = (0..2 * n + 3).map(|k| format!("hq{case}x{k}")).collect();
             fill_salts(&salts);
-            let mut bad = sd_jwt_rs::SDJWTIssuer::new(keys::issuer_enc(cfg2.alg, 0), Some((*r.pick(&["NOPE256", "", "RS256"])).to_string()));
-            let first = api::issue(&mut bad, &s2.u, &s2.strat, cfg2.holder, false, cfg2.fmt);
             let mut good = api::new_issuer(cfg2.alg, 0, true);
+            let first = if (case / 16) % 2 == 0 {
+                let mut bad = sd_jwt_rs::SDJWTIssuer::new(keys::issuer_enc(cfg2.alg, 0), Some((*r.pick(&["NOPE256", "", "RS256"])).to_string()));
+                api::issue(&mut bad, &s2.u, &s2.strat, cfg2.holder, false, cfg2.fmt)
+            } else {
+                // ... or one that is refused for a reserved member name in the MIDDLE of the claims (half of the
+                // disclosable members come before it in document order), on the instance that is used again
+                let mut m = serde_json::Map::new();
+                let members: Vec<(String, Value)> = s2.u.as_object().map(|o| o.iter().map(|(k, v)| (k.clone(), v.clone())).collect()).unwrap_or_default();
+                for (i, (k, v)) in members.iter().enumerate() {
+                    if i == members.len() / 2 {
+                        m.insert("mid#c16bad;".into(), json!({"a": 1, "b": [1, {"_sd": ["x"]}], "...": 2}));
+                    }
+                    m.insert(k.clone(), v.clone());
+                }
+                l.count("failed-issuance.reserved-name-in-the-middle");
+                api::issue(&mut good, &Value::Object(m), &s2.strat, cfg2.holder, false, cfg2.fmt)
+            };
             let second = pipeline::issue_with(&mut good, &s2.u, &s2.strat, cfg2.holder, false, cfg2.fmt);
             fill_salts(&[]);
             l.evals += 2;
@@ -171,7 +186,7 @@ fn one_case(ctx: &Ctx, case: u64, l: &mut Local) {
                 } else {
                     l.violate(Violation {
                         subcheck: "salt-order".into(),
-                        class: "issuance after an issuance that failed at the signing step".into(),
+                        class: if (case / 16) % 2 == 0 { "issuance after an issuance that failed at the signing step".into() } else { "issuance after one that was refused for a reserved member name".to_string() },
                         observed: "the disclosures do not carry a contiguous run of the queue in queue order".into(),
                         case,
                         detail: json!({"config": cfg2.describe(), "queue_head": salts.iter().take(2 * n.min(6)).collect::<Vec<_>>(), "salts_used": got.iter().take(12).collect::<Vec<_>>(), "disclosures": n}),
@@ -462,6 +477,35 @@ fn one_case(ctx: &Ctx, case: u64, l: &mut Local) {
                 l.violate(Violation { subcheck: "value-changed-by-spacing".into(), class: class.into(), observed: "verified claims differ from the model in the mock_salts build".into(), case, detail: json!({"input": input(), "selection": sel, "at": at, "expected": e, "got": g}) });
             }
             o => l.violate(Violation { subcheck: "roundtrip-fails".into(), class: class.into(), observed: o.panic_signature().unwrap_or_else(|| o.describe()), case, detail: json!({"input": input(), "history": api::history()}) }),
+        }
+        // deterministic salts make this constructible: the SAME claims and salts again, except that the (always
+        // visible, never disclosed) `iss` now holds the text of one disclosure's digest — a claim value that
+        // happens to equal a digest is data, and the round trip is the same
+        if case % 8 == 3 && !issued.parts.disclosures.is_empty() && cfg.fmt == crate::model::Fmt::Compact || case % 16 == 11 && !issued.parts.disclosures.is_empty() {
+            let dg = model::digest_of(&issued.parts.disclosures[r.usize(issued.parts.disclosures.len())]);
+            let mut u2 = s.u.clone();
+            u2["iss"] = json!(dg);
+            fill_salts(&salts);
+            let mut issuer = api::new_issuer(cfg.alg, 0, s.explicit_alg);
+            let out = api::issue(&mut issuer, &u2, &s.strat, cfg.holder, cfg.decoys, cfg.fmt);
+            fill_salts(&[]);
+            l.evals += 1;
+            let all = gen::select_all(&u2);
+            let back = match out {
+                Outcome::Ok(sd) => match api::holder_new(&sd, cfg.fmt) {
+                    Outcome::Ok(mut h) => match api::present(&mut h, &all, None) {
+                        Outcome::Ok(p) => api::verify(&p, &Resolver::Fixed(cfg.alg, 0), None, cfg.fmt).out,
+                        o => o.map(|_| Value::Null),
+                    },
+                    o => o.map(|_| Value::Null),
+                },
+                o => o.map(|_| Value::Null),
+            };
+            match back {
+                Outcome::Ok(v) if v == model::with_cnf(u2.clone(), jwk.as_ref()) => l.count("roundtrip.value-equal-to-a-digest"),
+                Outcome::Ok(v) => l.violate(Violation { subcheck: "value-changed-by-spacing".into(), class: "a claim value equal to the digest of a disclosure".into(), observed: "verified claims differ from the claims given".into(), case, detail: json!({"input": input(), "iss": dg, "got": v}) }),
+                o => l.violate(Violation { subcheck: "roundtrip-fails".into(), class: "a claim value equal to the digest of a disclosure".into(), observed: o.panic_signature().unwrap_or_else(|| o.describe()), case, detail: json!({"input": input(), "iss": dg, "history": api::history()}) }),
+            }
         }
     }
     // reproducibility
